@@ -4,7 +4,11 @@ package c16
 
 import (
 	"fmt"
+	"go.uber.org/zap"
+	"runtime"
 	"strings"
+	"sync"
+	"sync/atomic"
 	"time"
 
 	"go.uber.org/zap/verif/internal/ev"
@@ -311,9 +315,45 @@ func clip(s string) string {
 }
 
 // Run is the C16 monitor.
+func startNoise(r *ev.Run) func() {
+	var stop atomic.Bool
+	var wg sync.WaitGroup
+	var lines atomic.Int64
+	for w := 0; w < 3; w++ {
+		wg.Add(1)
+		go func(w int) {
+			defer wg.Done()
+			cfg := zapcore.EncoderConfig{MessageKey: "M", LevelKey: "L", TimeKey: "T", NameKey: "N", CallerKey: "C", FunctionKey: "F", StacktraceKey: "S",
+				EncodeLevel: zapcore.CapitalLevelEncoder, EncodeTime: zapcore.RFC3339NanoTimeEncoder, EncodeDuration: zapcore.StringDurationEncoder, EncodeCaller: zapcore.ShortCallerEncoder,
+				ConsoleSeparator: fmt.Sprintf("<noise%d>", w)}
+			enc := zapcore.NewConsoleEncoder(cfg)
+			ent := zapcore.Entry{Level: zapcore.WarnLevel, Time: time.Unix(1_600_000_000+int64(w), 0).UTC(), LoggerName: fmt.Sprintf("noise%d", w), Message: "noise",
+				Caller: zapcore.EntryCaller{Defined: true, File: "/noise/n.go", Line: w, Function: "noise.F"}, Stack: "noise stack"}
+			for k := 0; !stop.Load(); k++ {
+				if buf, err := enc.EncodeEntry(ent, []zapcore.Field{zap.Int("noise", k), zap.Namespace("nn"), zap.Strings("ss", []string{"n", "o"})}); err == nil {
+					buf.Free()
+				}
+				lines.Add(1)
+				if k%64 == 0 {
+					runtime.Gosched()
+				}
+			}
+		}(w)
+	}
+	return func() {
+		stop.Store(true)
+		wg.Wait()
+		r.Count("console_lines_encoded_concurrently_by_other_goroutines", lines.Load())
+	}
+}
+
 func Run(r *ev.Run) {
 	r.Rule = "for each of the 128 presence patterns (six metadata keys + context present/absent) x N seeded cases: console EncoderConfig (built-in, nil and no-op sub-encoders, separators incl. multi-byte and '{', line endings) x entry x With-chain x fields; the line must be exactly the present columns (learned by running the configured sub-encoder against a recorder) joined by the separator, then separator + one valid JSON object equal to the JSON encoder's fields for the same chain, then the stack, then the line ending; distinct = distinct (pattern, config, shape)"
 	per := r.N(400, 20000)
+	// other loggers of the same process keep encoding console entries of their own (other columns, other
+	// fields) on other goroutines while the judged lines are produced
+	stopNoise := startNoise(r)
+	defer stopNoise()
 	for pat := 0; pat < 128; pat++ {
 		for k := 0; k < per; k++ {
 			i := pat*per + k
